@@ -138,12 +138,15 @@ TEXT["C01"] = dict(
         "rule, table encryption). The model is tied to the code BOTH WAYS on real archive bytes: the Lean reader reads what "
         "the Rust builder wrote across the configuration product, the Rust reader reads what the Lean writer wrote, plus the "
         "property oracle (every spelling, never-added names, listing, sizes) on the implementation."),
-  note=("PARTIAL: codecs are a table (sparse is proved in C03); V3/V4 headers and HET/BET are covered by the correspondence "
-        "and the oracle, not by the theorem. Two defects repaired (all-raw multi-sector files read back with their offset "
-        "table / garbage when encrypted; failed sector decompression became zeros); known finding D2 (ratio limits reject "
-        "own output) shared with C03. Observation: the builder fills the BET name-hash array with a different Jenkins "
-        "variant than the reader checks, so V3/V4 lookups always fall through to the classic tables (not observable on "
-        "builder-made archives, which always carry them)."),
+  note=("PARTIAL: codecs are a table (sparse is proved in C03); of V3/V4 the bit-packed extended block table is modelled "
+        "and proved (bet_roundtrip: every row reads back exactly at every entry width; bet_columns_independent for foreign "
+        "widths) and tied byte for byte to the builder's table and to the reader on arbitrary tables; V3/V4 headers and the "
+        "HET hash table are covered by the correspondence and the oracle, not by a theorem. Four defects repaired (all-raw "
+        "multi-sector files read back with their offset table / garbage when encrypted; failed sector decompression became "
+        "zeros; D58 the builder filled the BET name-hash array with a different Jenkins variant than the reader checks; "
+        "D59 extended block-table entries wider than 64 bits lost their high bits or overflowed: V3/V4 archives over "
+        "about 1 MB read back wrong bytes or could not be built); known finding D2 (ratio limits reject own output) "
+        "shared with C03."),
   technique="Lean 4 proof (whole-archive write/read composition by invariant + byte-level layout lemmas; cipher and probing lemmas) + two-way differential correspondence on real archive bytes")
 TEXT["C02"] = dict(
   text=("An independent reference implementation (Lean model of the published layout, probing, key derivation and cipher "
@@ -205,6 +208,6 @@ TEXT["C13"] = dict(
 
 TEXT["C05"] = dict(
     text="Machine-checked Lean 4 theorems about the loops every container parser starts with and the allocation rule: the MPQ header search returns within len/512+1 probes on every input and an offset it reports carries the header signature (findHeader_terminates, scan_at_sound); chunk discovery returns at most len/8 chunks whose headers and payloads together are no longer than the input (discover_bounded); a declared count reserves at most 64K elements and a read buffer never exceeds what is left of the stream. Tied to the code by comparing both loops with the implementation on mutated inputs, and — for the property proper, which is about the compiled code — a supervised mutation run over all formats and entry points with panic capture, worker-death detection, progress watchdog and allocation accounting.",
-    note="Partial by nature: totality of the Rust parsers is established by running them on structured mutants (sampling), not by proof. Eight fix commits in /repo (one per crate) removed every crash the run found: header-controlled allocations up to 85 GB, process aborts, arithmetic overflows, a third-party decoder panic reachable through an unchecked header byte.",
+    note="Partial by nature: totality of the Rust parsers is established by running them on structured mutants (sampling), not by proof. Eight fix commits in /repo (one per crate) removed every crash the run found: header-controlled allocations up to 85 GB, process aborts, arithmetic overflows, a third-party decoder panic reachable through an unchecked header byte. Three more (D60 water instances larger than a cell, D61 .anim section shorter than its header, D62 unvalidated WDB2/WDB5 headers: 4 GiB allocation abort) after seeds for those formats were added. Theorems also bound what the patch decoders can produce: rle_output_bounded / bsd0_output_bounded (C08) and sparse_output_bounded (C03).",
     technique="Lean 4 proof (fuel sufficiency for the header scan, size accounting for the chunk walk) + supervised structure-aware mutation testing with allocation accounting",
 )
